@@ -1794,6 +1794,10 @@ def oracle(seed: int = 16, scale: float = 1.0) -> dict:
         perm = names[:]
         rng.shuffle(perm)                                 # the mapping need not follow the member order
         mapping = [[values[k], perm[k]] for k in range(len(names))]
+        if rng.random() < 0.4:
+            # a free-form member next to the mapped variants: it must not turn a mapped-but-undecodable payload into a raw dict
+            args = args + [{"dict": "any"}]
+            rng.shuffle(args)
         ty = {"union": args, "disc": {"prop": "kind", "mapping": mapping}}
         k = rng.randrange(len(names))
         j = c.gen_conf_obj(perm[k], 0)
@@ -1809,7 +1813,12 @@ def oracle(seed: int = 16, scale: float = 1.0) -> dict:
             req = [f["n"] for f in c.decl_of(perm[k])["fields"] if f["d"] == "req" and f["n"] != "kind"]
             if not req:
                 continue
-            del j[rng.choice(req)]
+            victim = rng.choice(req)
+            vt = next(f["t"] for f in c.decl_of(perm[k])["fields"] if f["n"] == victim)
+            if vt != "int" or rng.random() < 0.5:
+                del j[victim]
+            else:
+                j[victim] = {"not": "a scalar"}        # present but undecodable (int(dict) raises; str()/bool() would coerce)
             cases.append({"prop": "union_variant", "decls": c.decls, "ty": ty, "json": j, "expect": "error",
                           "variant": None, "fail_class": "union-disc-retried"})
     # 5. the serializer
